@@ -253,6 +253,14 @@ def run(ctx):
             if any(s['op'] == 'index' for s in h) and len(jobs) % 5 == 0:
                 jobs.append(('srccat_det', h))
     res = core.pmap(replay, jobs, chunksize=4)
+    # binding self-test: a history whose recorded child ids are reversed must be reported by the replay
+    pj = next((j for j in jobs if any(s['op'] == 'index' and len(s['post']['ids']['C']) >= 2 for s in j[1])), None)
+    if pj is not None:
+        hb = core.jcopy(pj[1])
+        for st in hb:
+            if len(st['post']['ids'].get('C', [])) >= 2:
+                st['post']['ids']['C'] = st['post']['ids']['C'][::-1]
+        ctx.selftest('recorded ids of the sliced object reversed', any(v[0] == 'commutes' for v in replay((pj[0], hb))))
     for vs in res:
         for v in vs:
             ctx.violation(*v)
